@@ -520,6 +520,14 @@ def handleOp (ctx : Ctx) (toks : List String) : String × String × String :=
     ((match asIntegerRatio ctx.prof d with | .ok (x, y) => s!"{x} {y}" | .panic k => s!"panic:{k.toString} -") ++
         " " ++ sh (numerator ctx.prof d) ++ " " ++ sh (denominator ctx.prof d),
       s!"{n} {dn} {n} {dn}", s!"{sgn a}{if p = 0 then "0" else "p"}{if Int.gcd a (10 ^ p) = 1 then "c" else "r"}")
+  | ["hashfeed", a, p] =>
+    let (a, p) := (parseInt a, parseNat p)
+    let d : Dec := ⟨a, p⟩
+    let (n, dn) := Spec.ratio a p
+    ((match hashFeed ctx.prof d with
+      | .ok ws => ",".intercalate (ws.map fun w => s!"i128:{w}")
+      | .panic k => s!"panic:{k.toString}"),
+      s!"i128:{n},i128:{dn}", s!"{sgn a}{if p = 0 then "0" else "p"}")
   | ["hash", a, p] =>
     let (a, p) := (parseInt a, parseNat p)
     let d : Dec := ⟨a, p⟩
